@@ -11,8 +11,9 @@ EXPLANATION = (
     "WorkerNode.assigned_pipelines is accompanied, on the same path, by the matching update of capacity.pipelines_running, "
     "and both sit in the function that also writes the placement (commit_deploy_group, commit_migrate_pipeline, "
     "commit_teardown_group, deploy_group, migrate_pipeline, teardown)."
+    " (c) a migration target is chosen among workers that exclude the source (`w.id != source` in the candidate filter of every placement site that feeds migrate_pipeline)."
 )
-DECIDED = ["placements are only written for workers that are still registered at commit time", "a migration commit re-validates the placement it replaces", "assigned_pipelines and pipelines_running change together"]
+DECIDED = ["placements are only written for workers that are still registered at commit time", "a migration commit re-validates the placement it replaces", "assigned_pipelines and pipelines_running change together", "migration targets exclude the source worker"]
 NOT_DECIDED = ["the interleavings themselves", "HTTP vs NATS execution variants"]
 
 C = "varpulis_cluster::"
